@@ -251,7 +251,16 @@ fn irr(rng: &mut Rng, ctx: &mut Ctx) {
         // the splitter is a generic container: any event may arrive as 512-byte blocks carrying its command byte; the reader reassembles and
         // dispatches it like the plain event (the recorder only splits the Gecko list, the format does not say so)
         let mut sizes = table(&r, &pad);
-        if what == 5 { let cand: Vec<usize> = (0..body.len()).filter(|&i| matches!(body[i][0], 0x3A | 0x37 | 0x3B | 0x38 | 0x3C)).collect();
+        if what == 5 && k % 12 >= 6 {
+            // ... or a message of a kind the library does not know (what a newer recorder would do with any large new event): 1-3 blocks, skipped as a whole
+            if !sizes.iter().any(|x| x.0 == 0x10) { sizes.push((0x10, 516)); }
+            let code = [0x50u8, 0x11, 0x3E, 0x7B][(k / 12) % 4]; let nb = 1 + (k / 48) % 3; let mut blocks = vec![];
+            for bi in 0..nb { let mut b = vec![0x10u8]; b.extend(rng.bytes(512)); let actual: u16 = if bi + 1 == nb { 1 + (rng.next() % 512) as u16 } else { 512 }; b.extend(actual.to_be_bytes()); b.push(code); b.push((bi + 1 == nb) as u8); blocks.push(b); }
+            let at = (rng.next() as usize) % (body.len() + 1);
+            // not between the blocks of the Gecko list: the accumulator is shared
+            let at = if r.gecko.is_some() { at.max(gecko_events(&r).len()) } else { at };
+            body.splice(at..at, blocks); tags.push(format!("wrapped-unknown:{}", nb));
+        } else if what == 5 { let cand: Vec<usize> = (0..body.len()).filter(|&i| matches!(body[i][0], 0x3A | 0x37 | 0x3B | 0x38 | 0x3C)).collect();
             if !cand.is_empty() { let i = cand[(rng.next() as usize) % cand.len()]; let e = body[i].clone(); let (code, pay) = (e[0], &e[1..]);
                 if !sizes.iter().any(|x| x.0 == 0x10) { sizes.push((0x10, 516)); }
                 let chunks: Vec<&[u8]> = pay.chunks(512).collect(); let mut blocks = vec![];
